@@ -132,7 +132,13 @@ pub fn gen18(r: &mut Rng, n: usize, thorough: bool) -> Vec<String> {
     for k in 0..n {
         let hash = gen_hash(r);
         if k % req_every == 7 {
-            let id: Vec<u8> = (0..20).map(|_| *r.pick(b"ABCXYZabcxyz0123456789")).collect();
+            // client ids: plain, Azureus style, and (valid UTF-8) ids with characters that must be escaped exactly once
+            let id: Vec<u8> = match r.below(4) {
+                0 => (0..20).map(|_| *r.pick(b"ABCXYZabcxyz0123456789")).collect(),
+                1 => b"-RD0100-a1~b2!c3 d4$".to_vec(),
+                2 => (0..20).map(|_| *r.pick(b"Az09-._~!$&'()*+,;=:@/? %#[]")).collect(),
+                _ => "rdest-\u{e9}\u{e9}\u{e9}\u{e9}\u{e9}\u{e9}\u{e9}".as_bytes().to_vec(),
+            };
             let total = *r.pick(&[0u64, 1, 16384, 700_000_000, u32::MAX as u64 + 1, (1u64 << 62) + 3]);
             out.push(format!("req {} {} {} {}", hex(r.pick(&SUFFIXES).as_bytes()), hex(&hash), hex(&id), total));
         } else {
